@@ -195,6 +195,35 @@ fn oracle_write(a: u64, d: &[u8], b: usize, r: &Result<Result<Vec<WChunk>, &'sta
     }
 }
 
+thread_local! {
+    /// (request, implementation digest) of requests in the wrap region: compared with the model for
+    /// INFORMATION only (evidence key `wrap_region_informational`), never part of the verdict — the
+    /// region is outside the property (callers refuse such ranges), so a change there is no alarm.
+    static WRAP: std::cell::RefCell<Vec<(String, String)>> = std::cell::RefCell::new(Vec::new());
+}
+
+fn wrap_report(rep: &mut Report, camdrv: &str) {
+    let pend: Vec<(String, String)> = WRAP.with(|w| std::mem::take(&mut *w.borrow_mut()));
+    if pend.is_empty() {
+        return;
+    }
+    let reqs: Vec<String> = pend.iter().map(|p| p.0.clone()).collect();
+    let answers = run_model(camdrv, &reqs);
+    let mut agree = 0u64;
+    let mut first: Option<Value> = None;
+    for (i, (req, imp)) in pend.iter().enumerate() {
+        let m = answers.get(i).map(|s| s.as_str()).unwrap_or("<missing>");
+        if m == imp {
+            agree += 1;
+        } else if first.is_none() {
+            first = Some(json!({"request": req, "impl": imp, "model": m}));
+        }
+    }
+    rep.extra.insert("wrap_region_informational".into(), json!({
+        "note": "requests with address + length > 2^64 (outside the property, not part of the verdict): model (theorems read_checked_panics_iff / read_wrapping_release / write_*) vs implementation",
+        "requests": pend.len(), "agree": agree, "first_difference": first}));
+}
+
 fn do_read(rep: &mut Report, a: u64, n: u16, b: usize, src: &str) {
     let r = impl_read(a, n, b);
     let canon = format!("read {a} {n} {b}");
@@ -216,6 +245,13 @@ fn do_read(rep: &mut Report, a: u64, n: u16, b: usize, src: &str) {
     } else {
         // outside the statement (the callers refuse such ranges): observed, never compared
         rep.count("read:address-space-wrap(outside the property: not compared)");
+        let d = digest_read(&r);
+        WRAP.with(|w| {
+            let mut w = w.borrow_mut();
+            if w.len() < 4000 {
+                w.push((format!("c10 read {} {a} {n} {b}", profile()), d));
+            }
+        });
         return;
     }
     let d = digest_read(&r);
@@ -245,6 +281,15 @@ fn do_write(rep: &mut Report, a: u64, data: &[u8], pat: Option<(usize, u64)>, b:
         }
     } else {
         rep.count("write:address-space-wrap(outside the property: not compared)");
+        if data.len() <= 600 {
+            let d = digest_write(&r);
+            WRAP.with(|w| {
+                let mut w = w.borrow_mut();
+                if w.len() < 4000 {
+                    w.push((format!("c10 write {} {a} {} {b}", profile(), hex(data)), d));
+                }
+            });
+        }
         return;
     }
     let d = digest_write(&r);
@@ -423,5 +468,6 @@ fn main() {
             do_write(&mut rep, a, &d, None, b, if model_ok { "boundary-random-bytes" } else { "boundary-random-nomodel" });
         }
     }
+    wrap_report(&mut rep, &args.camdrv);
     rep.write(&args);
 }
